@@ -433,6 +433,10 @@ class Model:
             v.text_changed(self, n, kind, off, cnt, ins)
 
     def _release_subtree(self, n, exp):
+        if any(v.refers_to(n) for v in self.views.values()):
+            # the library recycles the storage of released nodes although one of its own Range / iterator / list objects still points
+            # into them (e.g. a Range inside an attribute dropped by removeAttribute): nothing after this can be compared
+            exp.cls = 'releases-node-referenced-by-view'
         inattr = set()
         for x in subtree(n):
             # attribute nodes of a released element: DOMElementImpl::release() releases them, DOMElementNSImpl::release() does not;
@@ -1668,6 +1672,9 @@ class Model:
         for n in self.all_nodes_of(doc):
             if n.t == ATTR and n.isid and attr_value(n) == idv:
                 cands.append(n)
+        if any(k.h is not None for n in self.all_nodes_of(doc) if n.t == ATTR and n.isid for k in subtree(n)[1:]):
+            # the value of an ID attribute may have been edited through its Text children behind the ID table's back
+            raise Undecided('ID attribute with externally held children')
         if len(cands) == 0:
             e.res = 'null'
         elif len(cands) == 1 and cands[0].owner is not None and cands[0].owner.root() is doc:
@@ -1740,6 +1747,21 @@ class Model:
                 return 'own-attribute'
             if name == 'rg' and a[1] in ('selectNode', 'selectNodeContents') and a[2].t == COMMENT:
                 return 'range-select-comment'
+            if name == 'rg' and a[1] == 'surround':
+                v = self.views.get(a[0])
+                if v is not None and v.kind == 'R' and not v.detached:
+                    try:
+                        saved = (v.sc, v.so, v.ec, v.eo)
+                        probe = Exp()
+                        if not (v.sc is v.ec and v.so == v.eo):
+                            new = a[2]
+                            rs = v.sc.parent if v.sc.t in (TEXT, CDATA) else v.sc
+                            re_ = v.ec.parent if v.ec.t in (TEXT, CDATA) else v.ec
+                            if new.t == ELEMENT and new.docnode() is v.doc and rs is re_ and rs is not None and \
+                                    (new.is_ancestor_or_self_of(v.sc) or KID_OK.get(rs.t) is None or ELEMENT not in KID_OK[rs.t]):
+                                return 'surround-hierarchy-error'
+                    except Undecided:
+                        return None
             if name in BY_NAME_OPS and a[0].t == ELEMENT and a[0].mapdirty:
                 return 'attr-map-out-of-order'
             if name == 'rename' and a[1].t == ATTR and not a[1].l2 and a[1].owner is not None and a[1].owner.mapdirty:
@@ -1859,7 +1881,7 @@ UD_KEYS = ['k1', 'k2', 'é']
 # break there (DESIGN section 5) and nothing can be compared afterwards
 # ('insert-into-self', 'count-huge' and 'leaf-firstchild-source' were in this set until the defects behind them were repaired in
 #  /repo: f2fc716, 0051c70, 9a920c0.  They are ordinary operand classes now and stay pinned in the check's special cases.)
-TAIL_ONLY = {'range-select-comment', 'attr-map-out-of-order', 'illegal-owned-attr', 'own-attribute', 'illegal-ns-aware-node', 'after-element-ending-in-text'}
+TAIL_ONLY = {'surround-hierarchy-error', 'releases-node-referenced-by-view', 'range-select-comment', 'attr-map-out-of-order', 'illegal-owned-attr', 'own-attribute', 'illegal-ns-aware-node', 'after-element-ending-in-text'}
 
 
 # Deviations from the DOM text that the unchanged tree is known to have (notes/C13.md).  The GENERATOR follows them, so that
@@ -1868,7 +1890,7 @@ TAIL_ONLY = {'range-select-comment', 'attr-map-out-of-order', 'illegal-owned-att
 KNOWN_DEVIATIONS = set(ALL_QUIRKS)
 # the same for the views of C14 (notes/C14.md)
 VIEW_QUIRKS = ('treewalker-previousNode-one-level', 'treewalker-hidden-node-filter-reject', 'range-selectNode-chardata-selects-contents',
-               'range-toString-includes-comment-and-pi-data')
+               'range-toString-includes-comment-and-pi-data', 'range-contents-op-resets-offsets-in-partial-text')
 KNOWN_VIEW_DEVIATIONS = set(VIEW_QUIRKS)
 
 
@@ -2514,7 +2536,8 @@ class Gen:
     def _boundary(self, doc):
         """a (container, offset) pair inside doc; mostly legal, sometimes out of range"""
         r = self.r
-        c = self.pick(lambda n: n.docnode() is doc and n.t in (ELEMENT, TEXT, CDATA, COMMENT, PI, DOC, FRAG) or (n is doc))
+        c = self.pick(lambda n: (n.docnode() is doc and n.t in (ELEMENT, TEXT, CDATA, COMMENT, PI, DOC, FRAG) or (n is doc))
+                      and (_root_of(n).t != ATTR or r.random() < 0.03))
         if c is None:
             return None
         ln = node_length(c)
@@ -2560,9 +2583,9 @@ class Gen:
         if k == 'collapse':
             return self.emit('rg', None, [vid, 'collapse', r.choice([0, 1])])
         if k == 'selectNodeContents':
-            n = self.pick(lambda n: n.docnode() is v.doc or n is v.doc)
+            n = self.pick(lambda n: (n.docnode() is v.doc or n is v.doc) and (_root_of(n).t != ATTR or r.random() < 0.03))
         elif r.random() < 0.9:
-            n = self.pick(lambda n: n.docnode() is v.doc and n.parent is not None and n.t != DOCTYPE)
+            n = self.pick(lambda n: n.docnode() is v.doc and n.parent is not None and n.t != DOCTYPE and (_root_of(n).t != ATTR or r.random() < 0.03))
         else:       # illegal node types for these setters
             n = self.pick(lambda n: n.docnode() is v.doc and n.t in (ATTR, FRAG, DOC)) or self.pick(lambda n: n is v.doc)
         if n is None:
@@ -2583,8 +2606,19 @@ class Gen:
             b = self.pick(lambda n: n.root() is a.root()) or b
         return self.emit(k, None, [a.h, b.h])
 
+    def g_getbyid(self):
+        r = self.r
+        d = self.pick_doc()
+        if d is None:
+            return None
+        vals = [attr_value(n) for n in self.m.all_nodes_of(d) if n.t == ATTR and (n.isid or r.random() < 0.2)]
+        val = r.choice(vals) if vals and r.random() < 0.85 else r.choice(DATA)
+        return self.emit('getById', None, [d.h, val])
+
     def g_viewquery(self, vid=None):
         r = self.r
+        if r.random() < 0.06:
+            return self.g_getbyid()
         if vid is None:
             vid, v = r.choice(self.live_views())
         else:
@@ -3770,16 +3804,27 @@ def _range_extract(self, v, sc, so, ec, eo, what, e):
     def partial(node, first):
         if node.t in CHARDATA_TYPES:
             c = None
+            # DOM: the selected part of the text is deleted (boundary points of other ranges follow the deleteData rule);
+            # DOMRangeImpl::traverseTextNode uses setNodeValue, which resets every boundary point inside the node to offset 0
+            q = 'range-contents-op-resets-offsets-in-partial-text' in self.quirk
+            if mutate and 'range-contents-op-resets-offsets-in-partial-text' not in e.quirks:
+                e.quirks.append('range-contents-op-resets-offsets-in-partial-text')
             if first:
                 if frag is not None:
                     c = self._clone(node, False, e); c.data = node.data[so:]; c.origin = 'range'
                 if mutate:
-                    self._set_data(node, node.data[:so], 'delete', so, len(node.data) - so, 0)
+                    if q:
+                        self._set_data(node, node.data[:so], 'replace-all')
+                    else:
+                        self._set_data(node, node.data[:so], 'delete', so, len(node.data) - so, 0)
             else:
                 if frag is not None:
                     c = self._clone(node, False, e); c.data = node.data[:eo]; c.origin = 'range'
                 if mutate:
-                    self._set_data(node, node.data[eo:], 'delete', 0, eo, 0)
+                    if q:
+                        self._set_data(node, node.data[eo:], 'replace-all')
+                    else:
+                        self._set_data(node, node.data[eo:], 'delete', 0, eo, 0)
             return c
         c = None
         if frag is not None:
@@ -3900,8 +3945,8 @@ def _rg_surround(self, v, new, e):
     errs = set()
     if new.t in (ATTR, ENTITY, DOCTYPE, NOTATION, DOC, FRAG):
         errs.add(INVALID_NODE_TYPE)
-    if new.docnode() is not v.doc:
-        errs.add(WRONG_DOC)
+    if new.docnode() is not v.doc or new.t == DOC:
+        errs.add(WRONG_DOC)          # (a Document has no owner document: Xerces answers WRONG_DOCUMENT_ERR for it)
     if COMMENT in (sc.t, ec.t) or PI in (sc.t, ec.t):
         raise Undecided('surroundContents with a boundary inside a comment / processing instruction')
     rs = sc.parent if sc.t in (TEXT, CDATA) else sc
@@ -3920,6 +3965,7 @@ def _rg_surround(self, v, new, e):
         raise Undecided('surroundContents over parentless text')
     if new.is_ancestor_or_self_of(sc):
         e.codes = {HIERARCHY}
+        e.cls = 'surround-hierarchy-error'
         return e
     if sc.t in (TEXT, CDATA) and (not (0 < so < len(sc.data)) or (sc is ec)):
         # after extractContents the start sits at an edge of the (shortened) text node, where splitting is not specified
@@ -3927,7 +3973,9 @@ def _rg_surround(self, v, new, e):
     if any(x.ro for x in _rg_nodes_touched(v)) or rs.ro:
         raise Undecided('surroundContents over read-only content')
     if KID_OK.get(rs.t) is None or ELEMENT not in KID_OK[rs.t]:
+        # DOMRangeImpl::surroundContents extracts the contents BEFORE insertNode finds out that newParent cannot go there
         e.codes = {HIERARCHY}
+        e.cls = 'surround-hierarchy-error'
         return e
     if rs.t == DOC:
         raise Undecided('surroundContents directly under a document')
